@@ -28,12 +28,10 @@ var DefaultAllow = []string{
 	"github.com/emersion/go-sasl", "internal/stringslite", "unicode", "cmp", "internal/byteorder",
 }
 
-// InitPkgs: packages whose initialisers are executed (on demand).
-var DefaultInit = []string{
-	"bufio", "io", "io/ioutil", "errors", "net/textproto", "strings", "strconv", "bytes",
-	"unicode/utf8", "encoding/base64", "encoding/binary", "sort",
-	"github.com/emersion/go-sasl", "context",
-}
+// NoInit: allowed packages whose initialisers are NOT executed (they touch
+// the OS or CPU feature detection); their functions used by the encoded code
+// do not depend on package-level state, or are intrinsics.
+var NoInit = []string{"time", "sync", "sync/atomic", "internal/bytealg"}
 
 // Load type-checks and builds SSA for the package in dir, with extra files
 // injected by overlay (virtual path -> content).
@@ -79,8 +77,11 @@ func Load(dir string, overlay map[string][]byte) (*Program, error) {
 	}
 	p.runtimeErrorString = rt.Type("errorString").Object().Type()
 	p.InitPkgs = map[string]bool{spkgs[0].Pkg.Path(): true}
-	for _, a := range DefaultInit {
+	for _, a := range DefaultAllow {
 		p.InitPkgs[a] = true
+	}
+	for _, a := range NoInit {
+		delete(p.InitPkgs, a)
 	}
 	return p, nil
 }
